@@ -161,15 +161,52 @@ def run_jinja_python(ctx):
     return lines, meta
 
 
+def rectify_correspondence(ctx, n):
+    """Model/Rectify.lean vs JinjaTemplater._rectify_templated_slices on random delta maps and slice lists (contiguous lists, lists
+    that revisit earlier positions as loops do, deltas that hit or miss slice starts); includes the loop witness of Props/C07b."""
+    from sqlfluff.core.templaters import JinjaTemplater
+    from sqlfluff.core.templaters.base import TemplatedFileSlice
+    rng = ctx.rng
+    lines, meta = [], []
+    cases = [({10: 2}, [(0, 10), (10, 15), (15, 20), (10, 15), (15, 20), (20, 30)])]
+    for _ in range(n):
+        k = rng.randint(1, 7)
+        pos = rng.randint(0, 5)
+        sl = []
+        for i in range(k):
+            ln = rng.randint(0, 6)
+            sl.append((pos, pos + ln)); pos += ln
+            if rng.random() < 0.2 and sl:
+                pos = rng.choice(sl)[0]          # loop back
+        starts = [a for a, _ in sl]
+        deltas = {}
+        for _j in range(rng.randint(0, 3)):
+            deltas[rng.choice(starts) + rng.choice([0, 0, 0, 1, -1, 3])] = rng.choice([-3, -1, 1, 2, 5])
+        cases.append((deltas, sl))
+    for deltas, sl in cases:
+        real = JinjaTemplater._rectify_templated_slices(dict(deltas), [TemplatedFileSlice("literal", slice(a, b), slice(0, 0)) for a, b in sl])
+        realflat = [x for t in real for x in (t.source_slice.start, t.source_slice.stop)]
+        ds = [x for kv in sorted(deltas.items()) for x in kv]
+        lines.append("rectify %s %s" % (",".join(str(x) for x in ds) or "-", ",".join(str(x) for a, b in sl for x in (a, b)) or "-"))
+        meta.append((",".join(str(x) for x in realflat) or "-", {"deltas": sorted(deltas.items()), "slices": sl}))
+    outs = ctx.driver.run(lines)
+    for (real, case), out in zip(meta, outs):
+        ctx.count(("rectify", json.dumps(case)), nontrivial=len(case["deltas"]) > 0)
+        ctx.bump("rectify_cases")
+        if out.strip() != real:
+            ctx.corr_fail("_rectify_templated_slices: model vs real", dict(case, model=out, real=real))
+
+
 def run(ctx, prove=True):
     ctx.rule = ("placeholder: every KNOWN_STYLES key x sample SQL + character-injected variants; jinja: generated templates (if/elif/else, for, "
                 "set, raw, comments, whitespace control), every rendering variant; python: format strings; non-trivial = has a parameter / > 3 slices; "
                 "distinct by (templater, source, variant)")
     if prove:
-        ctx.prove(["SqlfluffVerif.Props.C07"], ["Props/C07.lean"])
+        ctx.prove(["SqlfluffVerif.Props.C07", "SqlfluffVerif.Props.C07b"], ["Props/C07.lean", "Props/C07b.lean"])
     ctx.assumptions += ["regex.finditer yields ordered disjoint spans inside the string (spansOK; checked by Lean on every real match list)"]
     ctx.partial += ["jinja and python templaters are not modelled: their output is checked by the Lean predicate, not proved",
                     "alternate jinja variants: literal/in-bounds failures are attributed to _rectify_templated_slices (known finding)"]
+    rectify_correspondence(ctx, ctx.budget(600, 20000))
     l1, m1 = run_placeholder(ctx)
     l2, m2 = run_jinja_python(ctx)
     outs = ctx.driver.run(l1 + l2)
